@@ -1501,3 +1501,230 @@ def e_contain( ctx ):
     if hits == 0:
         res.ok( src, fn, 'no process-terminating call in the request-processing modules (%d calls scanned)' % scanned )
     return res
+
+
+# ---------------------------------------------------------------------------------------- C15: B-ROUTE, D-REFUSE, C-MAIN
+
+ROUTE_CFG = {		# representative values of the finite abstract domain of configured personalities
+    'none':		[ None ],
+    'simple':		[ False, 0, [] ],
+    'configured':	[ [ { 'port': 1, 'link': 0 } ], [ { 'port': 1, 'link': 0 }, { 'port': 2, 'link': '10.0.0.1' } ] ],
+}
+OTHER_PATH = [ { 'port': 2, 'link': 3 } ]
+
+
+def route_requests( cfg ):
+    """request route paths relative to a configured value: absent, empty list, equal, different (incl. differing in length)"""
+    out = [ ( 'absent', None ), ( 'empty', [] ) ]
+    if isinstance( cfg, list ) and cfg:
+        out.append(( 'equal', [ dict( s ) for s in cfg ] ))
+        out.append(( 'longer', [ dict( s ) for s in cfg ] + [ { 'port': 9, 'link': 9 } ] ))
+        out.append(( 'prefix', [ dict( s ) for s in cfg ][:-1] or OTHER_PATH ))
+    out.append(( 'different', OTHER_PATH ))
+    return out
+
+
+def route_expected( kind, rkind ):
+    if kind == 'none':
+        return True
+    if kind == 'simple':
+        return rkind in ( 'absent', 'empty' )
+    return rkind in ( 'absent', 'empty', 'equal' )
+
+
+@rule( 'B-ROUTE', props=( 'C15', ), floor=12 )
+def b_route( ctx ):
+    """the route-path acceptance expression of UCMM.request equals the specified decision table on every cell of the finite abstract domain"""
+    res = Result( 'B-ROUTE' )
+    src = ctx.src( UCMM )
+    fn = src.get( 'UCMM.request' )
+    asserts = [ a for a in ast.walk( fn ) if isinstance( a, ast.Assert ) and { 'route_path', 'self.route_path' } <= dotted_in( a.test ) ]
+    raising_ifs = [ i for i in ast.walk( fn ) if isinstance( i, ast.If ) and { 'route_path', 'self.route_path' } <= dotted_in( i.test )
+                    and any( isinstance( b, ast.Raise ) for b in i.body ) ]
+    if len( asserts ) + len( raising_ifs ) != 1:
+        if not asserts and not raising_ifs:
+            res.bad( src, fn, 'UCMM.request', 'no acceptance test compares the request route path with the configured one: every route path is accepted' )
+            return res
+        raise AnalysisError( 'UCMM.request: %d acceptance tests found' % ( len( asserts ) + len( raising_ifs )))
+    if asserts:
+        node, test, negate = asserts[0], asserts[0].test, False
+    else:
+        node, test, negate = raising_ifs[0], raising_ifs[0].test, True
+    # the request route path must come from the unconnected send's route_path segments
+    ld = LocalDefs( fn )
+    rp_defs = ld.defs.get( 'route_path', [] )
+    if any( isinstance( d, ast.Call ) and isinstance( d.func, ast.Attribute ) and d.func.attr == 'get' and d.args and try_fold( d.args[0] ) == 'route_path.segment' for d in rp_defs ):
+        res.ok( src, fn, "route_path = unc_send.get( 'route_path.segment' )" )
+    else:
+        res.bad( src, fn, 'route_path definition', 'the tested route path must be the request\'s unconnected_send route_path.segment list (None when absent)' )
+    # enclosing guards that mention only the two route-path values
+    guards = []
+    cur = node
+    for a in src.ancestors( node ):
+        if isinstance( a, ast.If ) and dotted_in( a.test ) <= { 'route_path', 'self.route_path', 'self' } and dotted_in( a.test ) & { 'route_path', 'self.route_path' }:
+            guards.append(( a.test, cur in a.body or any( cur is x or cur in ast.walk( x ) for x in a.body )))
+        cur = a
+        if isinstance( a, ast.FunctionDef ):
+            break
+    def accept( cfgv, reqv ):
+        env = { 'route_path': reqv, 'self.route_path': cfgv }
+        for gtest, in_body in guards:
+            g = bool( fold( gtest, env ))
+            if g != in_body:
+                return True			# the test is not reached: nothing refuses the request
+        v = bool( fold( test, env ))
+        return ( not v ) if negate else v
+    cells = 0
+    for kind, cfgs in ROUTE_CFG.items():
+        for cfgv in cfgs:
+            for rkind, reqv in route_requests( cfgv ):
+                cells += 1
+                try:
+                    got = accept( cfgv, reqv )
+                except NoFold as exc:
+                    raise AnalysisError( 'acceptance expression uses the route paths beyond truthiness / is None / == : %s' % exc )
+                want = route_expected( kind, rkind )
+                fact = 'configured %s (%r) x request %s (%r): %s' % ( kind, cfgv, rkind, reqv, 'accept' if got else 'refuse' )
+                if got == want:
+                    res.ok( src, node, fact )
+                else:
+                    res.bad( src, node, 'route acceptance: ' + fact, 'the specified behaviour is to %s (none: accept all; simple: only no route path; configured: none or exactly the configured path)' % (
+                        'accept' if want else 'refuse' ))
+    res.cells = cells
+    return res
+
+
+@rule( 'D-REFUSE', props=( 'C15', ), floor=2 )
+def d_refuse( ctx ):
+    """a refused Unconnected Send performs no tag access: the acceptance test dominates the local dispatch, and the handler turns it into a non-zero status"""
+    res = Result( 'D-REFUSE' )
+    src = ctx.src( UCMM )
+    fn = src.get( 'UCMM.request' )
+    cfg = CFG( fn )
+    disp = [ n for n in cfg.nodes if n.kind == 'stmt' and n.stmt is not None and any(
+        isinstance( c, ast.Call ) and isinstance( c.func, ast.Attribute ) and c.func.attr == 'request' and c.args and dotted( c.args[0] ) == 'unc_send'
+        for c in ast.walk( n.stmt )) ]
+    if not disp:
+        raise AnalysisError( 'UCMM.request: local dispatch CM.request( unc_send, ... ) not found' )
+    acc = [ n for n in cfg.nodes if n.kind == 'stmt' and isinstance( n.stmt, ast.Assert ) and { 'route_path', 'self.route_path' } <= dotted_in( n.stmt.test ) ]
+    guard = [ n for n in cfg.nodes if n.kind == 'test' and pmatch( n.expr, 'self.route_path is not None' ) ]
+    skip = [ m for g_ in guard for m, l in cfg.succ[g_] if l == 'false' ]
+    for d in disp:
+        if acc and cfg.must_pass( cfg.entry, d, set( acc ) | set( skip ), correlated=False ) and ( not skip or not cfg.must_pass( cfg.entry, d, set( skip ), correlated=False ) or True ):
+            # and when a personality is configured the assert itself is unavoidable
+            if guard:
+                tsucc = [ m for g_ in guard for m, l in cfg.succ[g_] if l == 'true' ]
+                pruned_ok = all( cfg.must_pass( t, d, acc, correlated=False ) for t in tsucc )
+            else:
+                pruned_ok = True
+            if pruned_ok:
+                res.ok( src, d.stmt, 'the route-path acceptance test precedes the local dispatch on every path with a configured personality' )
+            else:
+                res.bad( src, d.stmt, d.stmt, 'with a configured personality a path reaches the local dispatch without the route-path test' )
+        else:
+            res.bad( src, d.stmt, d.stmt, 'the local dispatch is reachable without passing the route-path acceptance test: a refused request still accesses tags' )
+    # refusal -> status: covered by the outer try/except of UCMM.request (S-STATUS); the assert is inside it
+    outer = [ t for t in fn.body if isinstance( t, ast.Try ) ]
+    if outer and acc and any( acc[0].stmt in ast.walk( b ) for b in outer[0].body ):
+        res.ok( src, acc[0].stmt, 'the acceptance test is inside the try whose handler stores a non-zero enip.status' )
+    else:
+        res.bad( src, fn, 'acceptance test placement', 'a refusal must be converted into an error status by the request handler' )
+    return res
+
+
+@rule( 'C-MAIN', props=( 'C15', ), floor=2 )
+def c_main( ctx ):
+    """main(): --simple => UCMM.route_path False; --route-path X => parse_route_path( X ); default => no UCMM subclass (route_path None)"""
+    res = Result( 'C-MAIN' )
+    src = ctx.src( MAIN )
+    fn = src.get( 'main' )
+    ifs = [ i for i in ast.walk( fn ) if isinstance( i, ast.If ) and ( pmatch( i.test, 'args.route_path is not None or args.simple' )
+                                                                        or pmatch( i.test, 'args.simple or args.route_path is not None' )) ]
+    if not ifs:
+        res.bad( src, fn, 'main', '--route-path / --simple are not turned into a UCMM personality' )
+        return res
+    cds = [ c for c in ifs[0].body if isinstance( c, ast.ClassDef ) ]
+    ok = False
+    for c in cds:
+        for s in c.body:
+            if isinstance( s, ast.Assign ) and dotted( s.targets[0] ) == 'route_path':
+                if pmatch( s.value, 'device.parse_route_path( args.route_path ) if args.route_path else False' ):
+                    ok = True
+                    res.ok( src, s, 'personality: parse_route_path( --route-path ) if given, else False (simple device)' )
+                else:
+                    res.bad( src, s, s, '--simple must yield route_path False and --route-path X must yield parse_route_path( X )' )
+    if not cds:
+        res.bad( src, ifs[0], 'main', 'no UCMM subclass carries the configured route path' )
+    if pfind( ifs[0], 'UCMM_class = UCMM' ) and pfind( fn, "options.setdefault( 'UCMM_class', UCMM_class )" ):
+        res.ok( src, ifs[0], 'the personality class is passed on as UCMM_class' )
+    else:
+        res.bad( src, ifs[0], 'UCMM_class', 'the configured personality must be handed to the simulator as UCMM_class' )
+    usrc = ctx.src( UCMM )
+    dflt = usrc.class_assign( 'UCMM', 'route_path' )
+    if isinstance( dflt.value, ast.Constant ) and dflt.value.value is None:
+        res.ok( usrc, dflt, 'UCMM.route_path defaults to None (accept any route path)' )
+    else:
+        res.bad( usrc, dflt, dflt, 'without configuration every route path must be accepted (route_path = None)' )
+    ini = usrc.get( 'UCMM.__init__' )
+    cfgif = [ i for i in ast.walk( ini ) if isinstance( i, ast.If ) and pmatch( i.test, 'self.route_path is None' ) ]
+    if cfgif and pfind( cfgif[0], 'self.route_path = device.parse_route_path( self.config_str( "Route Path", None ))' ):
+        res.ok( usrc, cfgif[0], 'a configured [UCMM] Route Path only applies when none was given at run time' )
+    else:
+        res.bad( usrc, ini, 'UCMM.__init__', 'the config-file route path must only fill in a missing run-time route path' )
+    return res
+
+
+# ---------------------------------------------------------------------------------------- C14: K-FORWARDS
+
+@rule( 'K-FORWARDS', props=( 'C14', ), floor=3 )
+def k_forwards( ctx ):
+    """the key stored by forward_open into `forwards`, the key UCMM.request builds for connected data and the prefix forward_close compares are the same (host, port, O->T connection id)"""
+    res = Result( 'K-FORWARDS' )
+    dsrc = ctx.src( DEVICE ); usrc = ctx.src( UCMM )
+    fo = dsrc.get( 'Connection_Manager.forward_open' )
+    stores = [ s for s in ast.walk( fo ) if isinstance( s, ast.Assign ) and isinstance( s.targets[0], ast.Subscript ) and txt( s.targets[0].value ) == 'self.forwards' ]
+    if not stores:
+        res.bad( dsrc, fo, 'forward_open', 'an accepted Forward Open is never recorded in self.forwards' )
+        return res
+    ld = LocalDefs( fo )
+    key = stores[0].targets[0].slice
+    kdefs = [ key ] if isinstance( key, ast.Tuple ) else ld.defs.get( dotted( key ), [] )
+    shape = None
+    for k in kdefs:
+        if isinstance( k, ast.Tuple ) and len( k.elts ) == 3:
+            shape = [ txt( e ) for e in k.elts ]
+    want_id = 'O_T.connection_ID'
+    if shape and shape[0] == 'addr[0]' and shape[1] == 'addr[1]' and shape[2].endswith( want_id ):
+        res.ok( dsrc, stores[0], 'forward_open key = ( addr[0], addr[1], %s )' % shape[2] )
+    else:
+        res.bad( dsrc, stores[0], 'forwards key %s' % shape, 'connections must be recorded under ( peer host, peer port, O->T connection id )' )
+    # UCMM.request connected branch
+    ur = usrc.get( 'UCMM.request' )
+    calls = [ c for c in ast.walk( ur ) if isinstance( c, ast.Call ) and isinstance( c.func, ast.Attribute ) and c.func.attr == 'request'
+              and any( k.arg == 'addr' and isinstance( k.value, ast.Tuple ) for k in c.keywords ) ]
+    if not calls:
+        res.bad( usrc, ur, 'UCMM.request connected branch', 'connected data is not dispatched with a 3-element connection address' )
+    for c in calls:
+        tup = [ k.value for k in c.keywords if k.arg == 'addr' ][0]
+        els = [ txt( e ) for e in tup.elts ]
+        uld = LocalDefs( ur )
+        third = els[2] if len( els ) == 3 else None
+        src3 = [ txt( d ) for d in uld.defs.get( third, [] ) ] if third else []
+        if len( els ) == 3 and els[0] == 'addr[0]' and els[1] == 'addr[1]' and any( d.endswith( 'item[0].connection_ID.connection' ) for d in src3 ):
+            res.ok( usrc, c, 'connected request addr = ( addr[0], addr[1], CPF item[0].connection_ID.connection )' )
+        else:
+            res.bad( usrc, c, tup, 'the lookup key of connected data must be ( peer host, peer port, connection id of the CPF address item )' )
+    # Connection_Manager.request looks the same key up
+    rq = dsrc.get( 'Connection_Manager.request' )
+    if [ i for i in ast.walk( rq ) if isinstance( i, ast.If ) and pmatch( i.test, 'addr in self.forwards' ) ] and pfind( rq, 'self.forwards[addr]' ):
+        res.ok( dsrc, rq, 'Connection_Manager.request looks the 3-element addr up in self.forwards' )
+    else:
+        res.bad( dsrc, rq, 'Connection_Manager.request', 'connected requests must be resolved through self.forwards[addr]' )
+    # forward_close compares the ( host, port ) prefix / the connection triple
+    fc = dsrc.get( 'Connection_Manager.forward_close' )
+    if pfind( fc, 'self.forwards' ) and ( pfind( fc, '( addr[0], addr[1] ) != _k[:2]' ) or pfind( fc, '( addr[0], addr[1] ) == _k[:2]' )
+                                          or pfind( fc, 'addr[:2] != _k[:2]' ) or pfind( fc, 'addr[:2] == _k[:2]' )):
+        res.ok( dsrc, fc, 'forward_close matches forwards entries by the peer ( host, port ) prefix' )
+    else:
+        res.bad( dsrc, fc, 'forward_close', 'closing must find the connection by the same peer address prefix it was stored under' )
+    return res
